@@ -29,6 +29,25 @@ CHECKS["C12"] = dict(
     design_ref="6/C12",
     technique="TLA+ model (NodePower.tla) checked by TLC incl. liveness + TLC-generated behaviours replayed on real nodes + TLC trace validation",
 )
+CHECKS["C05"] = dict(
+    category="model_checking",
+    text="Requests.tla: TLC enumerates every manager tree of depth<=3 over two keys with every guard valuation and every path (incl. misspelt keys) and shows that "
+    "the observation of a resolution (key present / rule verdict per level) determines its outcome. On live simulations (shipped + generated scenarios, every node "
+    "type) every submitted request - all 59 registered action types crossed with live components, uncovered tree leaves, and misspelt/dropped/truncated path "
+    "elements - is recorded with the harness' own walk of the manager tree, the response and whole-simulation digests before/after; TLC validates each record "
+    "against RequestsTrace.tla (documented status, refused => unreachable/failure with reason and unchanged state, actions naming existing components are never unreachable).",
+    design_ref="6/C05",
+    technique="TLA+ model of request resolution checked by TLC + TLC trace validation of recorded requests with state digests",
+)
+CHECKS["C11"] = dict(
+    category="model_checking",
+    text="Requests.tla: MaskAllows == the resolution reaches its handler; TLC proves the intended check_valid equal to it on all small trees and refutes the leaf-only "
+    "variant. On masked environments (shipped data_manipulation, generated action maps drawn from all action types on several topologies) every entry of the action map "
+    "at every step, and every request applied by any agent, is recorded as (mask bit, independent walk of the live managers, status) and validated by TLC (MaskExact, "
+    "MaskedNeverSucceeds, RefusedNotSuccess), with drivers steering through node shutdown/boot, service restart/disable, application close/install and NIC disable.",
+    design_ref="6/C11",
+    technique="TLA+ model (Requests.tla) checked by TLC + TLC trace validation of mask bits against an independent walk of the live request tree",
+)
 
 REASON_TODO = "check not built yet in this session (planned, see DESIGN.md 10); nothing is claimed for it"
 
